@@ -16,6 +16,9 @@ VAL = "00112233445566778899aabbccddeeff"
 
 
 def spec(i, n=6):
+    if i >= 100:
+        # different calls whose results are the same bytes (they share one content-addressed object in the store)
+        return {"id": i, "ret": {"k": "bytes", "v": "ee" + VAL * n}}
     return {"id": i, "ret": {"k": "bytes", "v": ("%02x" % i) + VAL * n}}
 
 
@@ -29,6 +32,7 @@ SCENARIOS = {
     "warmstore-coldcache-diff-tightcache": ([1, 2], [1, 2], False, 700),
     "cold-same-3": ([1, 1, 1], [], False, 1 << 20),
     "mixed-3": ([1, 2, 1], [2], False, 700),
+    "cold-equal-results-3-nocache": ([101, 102, 102], [], False, 0),
 }
 
 
@@ -62,19 +66,23 @@ class Run:
             # every source line of the function that hands out the per-call lock
             from twosigma.memento import runner_local
             codes.add(runner_local._mutex_for_invocation.__code__)
+        elif line_mode == "links":
+            # every source line of the function that publishes a link file (two calls with equal result bytes publish the same one)
+            from twosigma.memento.storage_filesystem import _FilesystemDataSource
+            codes.add(_FilesystemDataSource._write_non_versioned_link.__code__)
         elif line_mode:
             for nm, f in vars(MemoryCache).items():
                 f = getattr(f, "__wrapped__", f)
                 if callable(f) and hasattr(f, "__code__") and not nm.startswith("_estimate") and not nm.startswith("_pd") \
                         and not nm.startswith("_cache_key"):
                     codes.add(f.__code__)
-        if line_mode == "mutex":
-            call_files = ()                 # only the lines of the lock-table function and the bodies are scheduling points
+        if line_mode in ("mutex", "links"):
+            call_files = ()                 # only the lines of the traced function and the bodies are scheduling points
         self.sched = Scheduler(codes, call_files)
         sched = self.sched
         self.cache = getattr(self.backend, "_memory_cache", None)
         for attr, label in (("_memory_cache", "cache"), ("_metadata_source", "meta"), ("_data_source", "data")):
-            if line_mode == "mutex":
+            if line_mode in ("mutex", "links"):
                 break
             if getattr(self.backend, attr, None) is not None:
                 setattr(self.backend, attr, PointProxy(getattr(self.backend, attr), label, sched))
@@ -194,22 +202,22 @@ def run(tier, seed):
         if tier == "quick":
             plan = [("cold-same", 2, 70, 0, False), ("warmstore-coldcache-same", 2, 50, 0, False), ("cold-diff-tightcache", 1, 30, 0, False),
                     ("warmcache-same", 1, 10, 0, False), ("warmstore-coldcache-same", 0, 0, 25, True), ("cold-diff-tightcache", 0, 0, 15, True),
-                    ("cold-same", 2, 320, 0, "mutex")]
+                    ("cold-same", 2, 320, 0, "mutex"), ("cold-equal-results-3-nocache", 2, 250, 0, "links")]
             if not gate["ok"]:      # search mode: an obligation is broken, look harder for a failing schedule
                 plan = [(n, b + 1, r * 4, rr * 4, lm) for (n, b, r, rr, lm) in plan]
         else:
-            plan = [(n, 3, 400, 0, False) for n in SCENARIOS] + [(n, 0, 0, 150, True) for n in SCENARIOS] + [(n, 2, 150, 0, "mutex") for n in ("cold-same", "cold-same-3", "mixed-3")]
+            plan = [(n, 3, 400, 0, False) for n in SCENARIOS] + [(n, 0, 0, 150, True) for n in SCENARIOS] + [(n, 2, 150, 0, "mutex") for n in ("cold-same", "cold-same-3", "mixed-3")] + [("cold-equal-results-3-nocache", 3, 1500, 0, "links")]
         total, distinct = 0, set()
         cover = {}
         for name, bound, max_runs, random_runs, line_mode in plan:
             results, left = explore(lambda: Run(m, scratch, name, line_mode), bound, max_runs, rng, random_runs)
-            cover["%s/%s" % (name, ("lock-table-lines" if line_mode == "mutex" else "line") if line_mode else "call")] = {"schedules": len(results), "unexplored_prefixes_left": left,
+            cover["%s/%s" % (name, ({"mutex": "lock-table-lines", "links": "link-writer-lines"}.get(line_mode, "line")) if line_mode else "call")] = {"schedules": len(results), "unexplored_prefixes_left": left,
                                                                        "preemption_bound": bound}
             for trace, verdicts, choices in results:
                 total += 1
                 distinct.add((name, line_mode, tuple(trace)))
                 for sig, what in verdicts:
-                    rep.violation("C09:%s:%s" % (sig, name), "scenario %s, %s granularity: %s" % (name, ("lock-table lines" if line_mode == "mutex" else "line") if line_mode else "call", what),
+                    rep.violation("C09:%s:%s" % (sig, name), "scenario %s, %s granularity: %s" % (name, ({"mutex": "lock-table lines", "links": "link-writer lines"}.get(line_mode, "line")) if line_mode else "call", what),
                                   {"scenario": name, "granularity": "line" if line_mode else "call", "choices": choices,
                                    "schedule(thread, point)": trace[:200]})
                 if len(rep.samples) < 3 and len(trace) > 8:
